@@ -6,6 +6,7 @@
 From Coq Require Import String List ZArith NArith Bool.
 From JS Require Import Base.Res Base.Lex Spec.Decimal Spec.JsonGrammar Model.Number Model.TypeGuess Model.JsonScan Model.RegexScan Model.LineCol Model.EnumParse
   Proofs.JsonClasses Proofs.JsonSound Proofs.JsonMain Proofs.RegexProofs Proofs.LineColProofs Proofs.EnumProofs Proofs.TotalProofs Proofs.NumberTotal.
+From JS Require Import Model.SchemaText Proofs.SchemaLexTotal.
 Import ListNotations.
 
 (* JSON document scanner (Len / Check / NextLexeme, both option values): lexemes, or error 301/303 inside the text *)
@@ -54,3 +55,9 @@ Print Assumptions C02_regex_total.
 Theorem C02_render_total : forall s index, (0 <= index < Z.of_nat (length s))%Z -> exists p, pointer s index = Ok p /\ In 94%N p.
 Proof. exact pointer_total. Qed.
 Print Assumptions C02_render_total.
+
+(* the schema lexer model (Model/SchemaText.v: blanks, punctuation, scalars, references, comments, inline and block
+   annotations with their rule objects): with fuel above the length of the text it returns tokens or error 301 / 303 *)
+Theorem C02_schema_lex_total : forall f s, (length s < f)%nat -> lex_res_ok (slex f s).
+Proof. exact slex_total. Qed.
+Print Assumptions C02_schema_lex_total.
